@@ -205,6 +205,19 @@ def r17_1(rep, M, rid):
         cfg, IN = wrapped_states(M, fn)
         n = fl.node_of(dim_assign[0])
         okw = a0.id in (IN[n] or ()) and inp not in fl.slice(a0, n)["params"] - {inp} and a0.id != inp
+    # every other geometry call in classify works on the wrapped copy as well; only the Classification objects carry the input
+    for callee in (GEO + ".get_distances", GEO + ".get_center_of_mass", CLS + ".cross_validate_region"):
+        for c in M.calls_to(FQ, callee):
+            arg = c.args[0] if c.args else None
+            nn = fl.node_of(c)
+            good = isinstance(arg, ast.Name) and arg.id != inp and inp in fl.slice(arg, nn)["params"] and (
+                arg.id in (IN[nn] or ()) or any(isinstance(x, ast.Name) and x.id in (IN[nn] or ()) for e in fl.slice(arg, nn)["exprs"] for x in ast.walk(e)))
+            if good:
+                rep.ok(rid, f"classify: {callee.split('.')[-1]}({norm(arg)}) works on the wrapped copy")
+            else:
+                rep.violation(rid, f"classify: {callee.split('.')[-1]}({norm(arg) if arg is not None else ''})", "is not given the wrapped working copy: with atoms "
+                              "stored several cells away the minimum-image distances are too long, the structure falls apart and the class no longer matches the "
+                              "dimensionality of the wrapped structure", M.where(FQ, c))
     if okw:
         rep.ok(rid, f"classify: dimensionality is evaluated on the wrapped copy `{a0.id}`")
     else:
@@ -492,6 +505,46 @@ def config_mutation(rep, M, rid):
         rep.ok(rid, f"classify never modifies its configuration ({len(pure_cfg)} attributes) in place")
 
 
+# ----------------------------------------------------------------------------- failure only for zero-volume cells
+def r17_fail(rep, M, rid):
+    fn = M.func(FQ)
+    fl = Flow(fn)
+    raises = [(n, d["ast"]) for n, d in fl.cfg.g.nodes(data=True) if isinstance(d["ast"], ast.Raise)]
+    for n, r in raises:
+        exc = r.exc.func if isinstance(r.exc, ast.Call) else r.exc
+        conds = fl.cfg.branch_conditions(n)
+        handler = any(isinstance(t, ast.ExceptHandler) for t in ast.walk(fn) if isinstance(t, ast.ExceptHandler) and r in t.body)
+        if handler:
+            # raised while handling the failure of wrap(): ASE fails there exactly for a periodic direction without cell vector
+            tr = [t for t in ast.walk(fn) if isinstance(t, ast.Try) and any(r in h.body for h in t.handlers)]
+            only_wrap = tr and all(isinstance(s2, ast.Expr) and isinstance(s2.value, ast.Call) and isinstance(s2.value.func, ast.Attribute)
+                                   and s2.value.func.attr == "wrap" for s2 in tr[0].body)
+            if only_wrap and norm(exc) == "ValueError":
+                rep.ok(rid, "classify: ValueError exactly when wrap() of the copy fails (zero-volume cell with periodic directions)")
+            else:
+                rep.violation(rid, f"classify: raise {norm(exc)}", "an exception of something else than wrap() is converted", M.where(FQ, r))
+            continue
+        # explicit test: must be on the *absolute* volume
+        dets = [c for t, pol in conds if isinstance(t, ast.If) for c in ast.walk(t.test) if isinstance(c, ast.Call) and M.ext_name(FQ, c.func) == "numpy.linalg.det"]
+        vols = [c for t, pol in conds if isinstance(t, ast.If) for c in ast.walk(t.test) if isinstance(c, ast.Call) and isinstance(c.func, ast.Attribute)
+                and c.func.attr in ("get_volume", "volume")]
+        if dets:
+            absd = any(isinstance(c, ast.Call) and ((isinstance(c.func, ast.Name) and c.func.id == "abs") or (M.ext_name(FQ, c.func) in ("numpy.abs", "numpy.absolute")))
+                       and any(x is dets[0] for x in ast.walk(c)) for t, pol in conds if isinstance(t, ast.If) for c in ast.walk(t.test))
+            if absd:
+                rep.ok(rid, f"classify: raise {norm(exc)} under a test of the absolute cell volume")
+            else:
+                rep.violation(rid, f"classify: raise {norm(exc)} under `{norm(dets[0])} < eps`", "the *signed* determinant is tested: every left-handed cell "
+                              "(negative determinant, non-zero volume) is rejected as zero-volume, so classify does not return normally for it", M.where(FQ, r))
+        elif vols:
+            rep.ok(rid, f"classify: raise {norm(exc)} under a test of the cell volume")
+        else:
+            rep.violation(rid, f"classify: raise {norm(exc)}", "classify raises under a condition that is not the zero-volume test of the documented failure",
+                          M.where(FQ, r))
+    if not raises:
+        rep.violation(rid, "classify: zero-volume cells", "no documented failure for zero-volume periodic cells", M.where(FQ))
+
+
 # ----------------------------------------------------------------------------- R17.6 radii agreement
 def r17_6(rep, M, rid):
     fn = M.func(FQ)
@@ -556,16 +609,16 @@ def run(rep, ctx):
     rep.rule("R17.4", "the input is never mutated; classifications carry the caller's atoms and nobody mutates them")
     rep.rule("R17.5", "no nondeterminism reachable; instance state read by classify is initialised")
     rep.rule("R17.6", "matrix and dimensionality use the same radii; thresholds are forwarded")
+    rep.rule("R17.7", "classify raises only for zero-volume periodic cells; every exception handler on its paths is a confirmed one")
     for rid, f in (("R17.1", lambda: r17_1(rep, M, "R17.1")), ("R17.2", lambda: r17_2(rep, M, "R17.2")),
                    ("R17.3", lambda: r17_3(rep, M, "R17.3")), ("R17.4", lambda: r17_4(rep, M, E, "R17.4")),
-                   ("R17.5", lambda: (r17_5(rep, M, "R17.5"), config_mutation(rep, M, "R17.5"))), ("R17.6", lambda: r17_6(rep, M, "R17.6"))):
+                   ("R17.5", lambda: (r17_5(rep, M, "R17.5"), config_mutation(rep, M, "R17.5"))), ("R17.6", lambda: r17_6(rep, M, "R17.6")), ("R17.7", lambda: r17_fail(rep, M, "R17.7"))):
         with rep.guard(rid):
             f()
-    rep.rule("R17.7", "every exception handler on the paths of classify is a confirmed one (classify fails only the documented way)")
     with rep.guard("R17.7"):
         from .. import handlers
         handlers.check(rep, M, "R17.7", M.reachable([FQ]))
-    rep.floor("R17.7", 8)
+    rep.floor("R17.7", 7)
     rep.floor("R17.1", 7)
     rep.floor("R17.2", 3)
     rep.floor("R17.3", 4)
